@@ -83,6 +83,26 @@ type built struct {
 
 func pkgKey(sub, name string) string { return sub + "\x00" + name }
 
+// allPkgs: every package this harness added to the graph with AddPackage, from its OWN record - not from
+// BuildGraph.PackageMap(), which is the copy gc.go ranges over and therefore part of what is being checked.
+func (b *built) allPkgs() []*core.Package {
+	out := make([]*core.Package, 0, len(b.pkgs))
+	for _, k := range lib.SortedKeys(b.pkgs) {
+		out = append(out, b.pkgs[k])
+	}
+	return out
+}
+
+// visiblePkgs: the packages the real PackageMap() hands out.
+func (b *built) visiblePkgs() []*core.Package {
+	pm := b.graph.PackageMap()
+	out := make([]*core.Package, 0, len(pm))
+	for _, k := range lib.SortedKeys(pm) {
+		out = append(out, pm[k])
+	}
+	return out
+}
+
 func build(in *Input) *built {
 	b := &built{graph: core.NewGraph(), pkgs: map[string]*core.Package{}}
 	subrepos := map[string]*core.Subrepo{}
@@ -270,10 +290,9 @@ func wGraph(b *built) string {
 			wStrs(t.Labels), wLabels(t.DeclaredDependencies()), wLabels(res), sub,
 			wStrs(t.AllLocalSourcePaths()), wStrs(dataPaths(t))}, "|"))
 	}
+	// the packages: the STORE (every package added), not PackageMap() - the model copies it itself
 	ps := []string{}
-	pm := b.graph.PackageMap()
-	for _, k := range lib.SortedKeys(pm) {
-		p := pm[k]
+	for _, p := range b.allPkgs() {
 		names := []core.BuildLabel{}
 		for _, t := range p.AllTargets() {
 			names = append(names, t.Label)
@@ -289,10 +308,21 @@ func wArgs(a *ASpec) string {
 		wStrs(a.KeepLabels), wBool(a.Conservative)}, "|")
 }
 
-// wCase: graph ^ packages ^ args ^ removed ^ removed sources ^ publicDependencies observations ^ gcSibling observations
+// wPackageMap: the real BuildGraph.PackageMap(), entries sorted by key: key|subrepo|name of the value
+func wPackageMap(b *built) string {
+	pm := b.graph.PackageMap()
+	out := []string{}
+	for _, k := range lib.SortedKeys(pm) {
+		out = append(out, clean(k)+"|"+clean(pm[k].SubrepoName)+"|"+clean(pm[k].Name))
+	}
+	return strings.Join(out, "!")
+}
+
+// wCase: graph ^ packages (the store) ^ args ^ removed ^ removed sources ^ publicDependencies observations ^
+// gcSibling observations ^ PackageMap() observation
 func wCase(b *built, a *ASpec, out outcome, pubs, sibs []string) string {
 	return `(dec "` + strings.Join([]string{wGraph(b), wArgs(a), wLabels(out.removed), wStrs(out.srcs),
-		strings.Join(pubs, "!"), strings.Join(sibs, "!")}, "^") + `")`
+		strings.Join(pubs, "!"), strings.Join(sibs, "!"), wPackageMap(b)}, "^") + `")`
 }
 
 // ---------------------------------------------------------------------------------------------
@@ -362,7 +392,7 @@ func subjects(g *core.BuildGraph, t *core.BuildTarget) []*core.BuildTarget {
 	return out
 }
 
-func named(b *built, a *ASpec, t *core.BuildTarget) bool {
+func named(pkgs []*core.Package, a *ASpec, t *core.BuildTarget) bool {
 	for _, k := range a.Keep {
 		if k.core().Includes(t.Label) {
 			return true
@@ -374,8 +404,9 @@ func named(b *built, a *ASpec, t *core.BuildTarget) bool {
 			return true
 		}
 		if l.Name == "..." {
-			// what a `...` entry of the expanded list names is Package.IsIncludedIn (the production caller never passes one)
-			for _, p := range b.graph.PackageMap() {
+			// what a `...` entry of the expanded list names is Package.IsIncludedIn (the production caller never passes one),
+			// over ALL packages of the graph
+			for _, p := range pkgs {
 				if p.IsIncludedIn(l) && p.Target(t.Label.Name) == t {
 					return true
 				}
@@ -385,16 +416,20 @@ func named(b *built, a *ASpec, t *core.BuildTarget) bool {
 	return false
 }
 
-func isRoot(b *built, a *ASpec, t *core.BuildTarget) bool {
+func isRoot(pkgs []*core.Package, a *ASpec, t *core.BuildTarget) bool {
 	if t.IsBinary && (!t.IsTest() || a.Conservative) {
 		return true
 	}
-	return t.HasAnyLabel(a.KeepLabels) || named(b, a, t)
+	return t.HasAnyLabel(a.KeepLabels) || named(pkgs, a, t)
 }
 
 // reference computes the least fixpoint.  testRounds < 0: tests rule applied to a fixpoint (the
 // property); testRounds = 0: no tests rule; testRounds = 1: tests of what the roots alone keep.
-func reference(b *built, a *ASpec, testRounds int) tset {
+//
+// pkgs = the packages whose subincludes are roots and that a named `...` ranges over: ALL packages of the
+// graph for the property (b.allPkgs(), the harness's own record); the packages PackageMap() hands out only
+// to tell whether a violation comes from a package that copy lost.
+func reference(b *built, pkgs []*core.Package, a *ASpec, testRounds int) tset {
 	g := b.graph
 	kept := tset{}
 	var work []*core.BuildTarget
@@ -415,11 +450,11 @@ func reference(b *built, a *ASpec, testRounds int) tset {
 	}
 	all := g.AllTargets()
 	for _, t := range all {
-		if isRoot(b, a, t) {
+		if isRoot(pkgs, a, t) {
 			add(t)
 		}
 	}
-	for _, p := range g.PackageMap() {
+	for _, p := range pkgs {
 		for _, l := range p.Subincludes {
 			add(g.Target(l))
 		}
@@ -509,10 +544,27 @@ const (
 	clsConservative = "nonbinary-test-of-kept-target-in-conservative-mode"
 	clsData         = "source-that-is-data-of-kept-target"
 	clsDir          = "source-inside-directory-input-of-kept-target"
+	clsPkgLost      = "root-of-package-missing-from-packagemap"
 	clsTarget       = "needed-target-removed"
 	clsSource       = "needed-source-removed"
 	clsMalformed    = "malformed-removal-list"
 )
+
+func samePkgs(a, b []*core.Package) bool {
+	if len(a) != len(b) {
+		return false
+	}
+	in := map[*core.Package]bool{}
+	for _, p := range a {
+		in[p] = true
+	}
+	for _, p := range b {
+		if !in[p] {
+			return false
+		}
+	}
+	return true
+}
 
 type outcome struct {
 	removed []core.BuildLabel
@@ -528,12 +580,21 @@ func run(b *built, a *ASpec) outcome {
 func oracle(c *lib.Ctx, b *built, in *Input, out outcome) (violations int) {
 	c.Oracle()
 	g := b.graph
-	kept := reference(b, &in.A, -1)
+	all := b.allPkgs()
+	kept := reference(b, all, &in.A, -1)
 	rounds := 1
 	if in.A.Conservative {
 		rounds = 0
 	}
-	weak := reference(b, &in.A, rounds)
+	weak := reference(b, all, &in.A, rounds)
+	// the packages PackageMap() hands out must be the packages of the graph; when they are not, what is
+	// kept only because of a package that the copy lost gets its own class
+	visible := b.visiblePkgs()
+	keptVisible := kept
+	if !samePkgs(all, visible) {
+		c.Hist("observations", "packagemap-differs-from-the-packages-added")
+		keptVisible = reference(b, visible, &in.A, -1)
+	}
 	fail := func(class, what string) {
 		violations++
 		c.Fail(class, what, in)
@@ -557,6 +618,8 @@ func oracle(c *lib.Ctx, b *built, in *Input, out outcome) (violations int) {
 		}
 		sib := sibling(g, t)
 		switch {
+		case !keptVisible[t]:
+			fail(clsPkgLost, fmt.Sprintf("%s is a root (subincluded by / named through) of a package that BuildGraph.PackageMap() does not hand out, or is needed by one, and is proposed for removal (%d packages added, %d in PackageMap())", r, len(all), len(visible)))
 		case sib != t && !kept[sib]:
 			fail(clsSibling, fmt.Sprintf("%s is needed by a kept root but is proposed for removal because its gc_sibling %s is not needed", r, sib.Label))
 		case !weak[sib]:
@@ -578,6 +641,8 @@ func oracle(c *lib.Ctx, b *built, in *Input, out outcome) (violations int) {
 			}
 			kc := ""
 			switch {
+			case u == useSrc && !keptVisible[k]:
+				kc = clsPkgLost
 			case u == useSrc && weak[k]:
 				kc = clsSource
 			case u == useSrc:
@@ -588,7 +653,7 @@ func oracle(c *lib.Ctx, b *built, in *Input, out outcome) (violations int) {
 				kc = clsDir
 			}
 			// report the most alarming explanation
-			rank := map[string]int{clsDir: 1, clsData: 2, clsTestOrder: 3, clsConservative: 3, clsSource: 4}
+			rank := map[string]int{clsDir: 1, clsData: 2, clsTestOrder: 3, clsConservative: 3, clsSource: 4, clsPkgLost: 5}
 			if cls == "" || rank[kc] > rank[cls] {
 				cls, who, worst = kc, k, u
 			}
@@ -855,6 +920,127 @@ func generateChain(r *lib.Rng) *Input {
 	if r.Chance(1, 8) {
 		a.Filter = []Lbl{{"", p.Pkg, lib.Pick(r, []string{"all", "..."})}}
 	}
+	return g.in
+}
+
+// ---- packages of a subrepo that share their name with a package of the host repository -----------
+// gc.go finds every package's subincludes, and the targets a named //pkg/... stands for, by ranging over
+// BuildGraph.PackageMap() - a copy of the graph's packages keyed by a string.  Two packages of the same name
+// (lib, src, cmd, the root package ... of the host repository and of a third-party subrepo) must both be
+// in it.  Which of two colliding entries would survive depends on the order the graph's shards are listed
+// in, i.e. on a hash of (subrepo, name): the subrepo's name is drawn from a pool.
+
+var shadowPkgPool = []string{"lib", "src", "cmd", "", "lib/x", "a/b", "third_party/go"}
+var shadowSubrepoPool = func() []string {
+	out := []string{"sr", "tp", "third_party/go", "third_party/go_x", "pleasings", "vendor"}
+	for i := 0; i < 16; i++ {
+		out = append(out, fmt.Sprintf("third_party_%d", i))
+	}
+	return out
+}()
+
+// generateShadow: a host repository with 3-5 packages, one or two of which (S) also exist in a subrepo.
+// What only S keeps: a build_defs target that S alone subincludes (with a dependency, a source, sometimes a
+// test), and/or the targets of S itself under a named //S/... (or //...).  Controls: the same subinclude
+// also registered by a package that is not shadowed, the subrepo without the shadowing package.
+func generateShadow(r *lib.Rng) *Input {
+	g := &gen{r: r, in: &Input{}, names: map[string]bool{}}
+	names := append([]string{}, shadowPkgPool...)
+	lib.Shuffle(r, names)
+	S := Lbl{Pkg: names[0]}
+	D := Lbl{Pkg: "build_defs"}
+	host := []Lbl{S, D, {Pkg: "app"}, {Pkg: "old"}}
+	if r.Chance(1, 2) {
+		host = append(host, Lbl{Pkg: names[1]})
+	}
+	sub := lib.Pick(r, shadowSubrepoPool)
+	subPkgs := []Lbl{}
+	if !r.Chance(1, 8) { // control: no package of that name in the subrepo
+		subPkgs = append(subPkgs, Lbl{Sub: sub, Pkg: S.Pkg})
+	}
+	if r.Chance(1, 3) {
+		subPkgs = append(subPkgs, Lbl{Sub: sub, Pkg: lib.Pick(r, []string{"app", "build_defs", names[1], "other"})})
+	}
+	if r.Chance(1, 6) { // a second subrepo with the same package again
+		subPkgs = append(subPkgs, Lbl{Sub: sub + "_2", Pkg: S.Pkg})
+	}
+	add := func(t TSpec) Lbl {
+		g.claim(Lbl{t.L.Sub, t.L.Pkg, ""}, t.L.Name)
+		g.addTarget(t)
+		return t.L
+	}
+	// the host repository
+	util := add(TSpec{L: Lbl{"", "app", "util"}, Srcs: []string{"util.go"}})
+	add(TSpec{L: Lbl{"", "app", "main"}, Binary: true, Deps: []Lbl{util}, Srcs: []string{"main.go"}})
+	helpers := add(TSpec{L: Lbl{"", D.Pkg, "helpers"}, Srcs: []string{"helpers.build_defs"}})
+	defs := add(TSpec{L: Lbl{"", D.Pkg, "defs"}, Deps: []Lbl{helpers}, Srcs: []string{"defs.build_defs"}})
+	defs2 := add(TSpec{L: Lbl{"", D.Pkg, "more_defs"}, Srcs: []string{"more.build_defs"}})
+	codec := add(TSpec{L: Lbl{"", S.Pkg, "codec"}, Srcs: []string{"codec.go"}})
+	api := add(TSpec{L: Lbl{"", S.Pkg, "api"}, Deps: []Lbl{codec}, Srcs: []string{"api.go"}})
+	add(TSpec{L: Lbl{"", "old", "junk"}, Srcs: lib.Pick(r, [][]string{{"junk.go"}, {"junk.go", "../build_defs/helpers.build_defs"}})})
+	if r.Chance(1, 3) {
+		// a test of the helpers: stays exactly when the helpers do
+		add(TSpec{L: Lbl{"", D.Pkg, "helpers_test"}, Test: true, Binary: true, TestOnly: true, Deps: []Lbl{helpers}, Srcs: []string{"helpers_test.go"}})
+	}
+	if r.Chance(1, 4) {
+		add(TSpec{L: Lbl{"", S.Pkg, "api_test"}, Test: true, Binary: true, TestOnly: true, Deps: []Lbl{api}, Srcs: []string{"api_test.go"}})
+	}
+	if len(host) > 4 {
+		x := add(TSpec{L: Lbl{"", host[4].Pkg, "extra"}, Srcs: []string{"extra.go"}})
+		if r.Chance(1, 3) {
+			g.in.Targets[1].Deps = append(g.in.Targets[1].Deps, x)
+		}
+	}
+	// the subrepo(s): every target of a subrepo is a root for gc.go anyway
+	var vendored []Lbl
+	for _, sp := range subPkgs {
+		v := add(TSpec{L: Lbl{sp.Sub, sp.Pkg, "vendored"}, Srcs: []string{"vendored.go"}})
+		vendored = append(vendored, v)
+		if r.Chance(1, 3) {
+			add(TSpec{L: Lbl{sp.Sub, sp.Pkg, "vendored_test"}, Test: true, Binary: true, TestOnly: true, Deps: []Lbl{v}})
+		}
+	}
+	for _, p := range host {
+		g.in.Pkgs = append(g.in.Pkgs, PSpec{Name: p.Pkg})
+	}
+	for _, sp := range subPkgs {
+		ps := PSpec{Sub: sp.Sub, Name: sp.Pkg}
+		if r.Chance(1, 4) {
+			// the subrepo's package subincludes something too (one of its own targets, or the host's other defs)
+			ps.Subincludes = []Lbl{lib.Pick(r, append(append([]Lbl{}, vendored...), defs2))}
+		}
+		g.in.Pkgs = append(g.in.Pkgs, ps)
+	}
+	a := &g.in.A
+	mode := r.Intn(8)
+	if mode <= 4 || mode == 7 { // S - and mostly S alone - subincludes //build_defs:defs
+		g.in.Pkgs[0].Subincludes = []Lbl{defs}
+		if r.Chance(1, 4) {
+			g.in.Pkgs[0].Subincludes = append(g.in.Pkgs[0].Subincludes, defs2)
+		}
+		if r.Chance(1, 8) { // control: a package that is not shadowed registers it as well
+			g.in.Pkgs[2].Subincludes = []Lbl{defs}
+		}
+	}
+	if mode >= 5 { // a direct caller names //S/... (or //...): the targets of the host package S are roots
+		l := Lbl{"", S.Pkg, "..."}
+		if r.Chance(1, 5) {
+			l = Lbl{"", "", "..."}
+		}
+		a.Targets = []Lbl{l}
+		if r.Chance(1, 3) {
+			a.Targets = append(a.Targets, defs2)
+		}
+	}
+	if r.Chance(1, 6) {
+		a.KeepLabels = []string{"keep"}
+		g.in.Targets[4].Labels = []string{"keep"}
+	}
+	a.Conservative = r.Chance(1, 8)
+	if r.Chance(1, 10) {
+		a.Filter = []Lbl{{"", lib.Pick(r, []string{D.Pkg, S.Pkg}), "..."}}
+	}
+	g.in.chains = nil
 	return g.in
 }
 
@@ -1125,10 +1311,60 @@ func witnesses() []*Input {
 			ws = append(ws, &Input{Pkgs: pk("lib", "app"), Targets: ts})
 		}
 	}
+	// 8. a subrepo with a package of the same name as a host package (the graph of the round-2 demonstration):
+	//    only lib/BUILD subincludes //build_defs:defs; or //lib/... is named.  Sixteen subrepo names, because
+	//    which of two entries of a map keyed by the bare name would survive depends on a hash of the subrepo's name
+	for i := 0; i < 16; i++ {
+		sub := fmt.Sprintf("third_party_%d", i)
+		for _, namedRoot := range []bool{false, true} {
+			in := &Input{
+				Pkgs: []PSpec{{Name: "app"}, {Name: "lib"}, {Name: "build_defs"}, {Name: "old"}, {Sub: sub, Name: "lib"}},
+				Targets: []TSpec{
+					{L: l("app", "util")},
+					{L: l("app", "main"), Binary: true, Deps: []Lbl{l("app", "util")}},
+					{L: l("build_defs", "helpers"), Srcs: []string{"helpers.build_defs"}},
+					{L: l("build_defs", "defs"), Deps: []Lbl{l("build_defs", "helpers")}, Srcs: []string{"defs.build_defs"}},
+					{L: l("lib", "codec"), Srcs: []string{"codec.go"}},
+					{L: l("lib", "api"), Deps: []Lbl{l("lib", "codec")}, Srcs: []string{"api.go"}},
+					{L: l("old", "junk"), Srcs: []string{"junk.go"}},
+					{L: Lbl{sub, "lib", "vendored"}},
+				}}
+			if namedRoot {
+				in.A.Targets = []Lbl{l("lib", "...")}
+			} else {
+				in.Pkgs[1].Subincludes = []Lbl{l("build_defs", "defs")}
+			}
+			ws = append(ws, in)
+		}
+	}
 	return ws
 }
 
 // ---------------------------------------------------------------------------------------------
+
+// sameNameStat: are there packages of the same name in different (sub)repositories, and does one of them
+// register a subinclude?
+func sameNameStat(b *built) string {
+	byName := map[string][]*core.Package{}
+	for _, p := range b.allPkgs() {
+		byName[p.Name] = append(byName[p.Name], p)
+	}
+	stat := "none"
+	for _, ps := range byName {
+		if len(ps) < 2 {
+			continue
+		}
+		if stat == "none" {
+			stat = "yes"
+		}
+		for _, p := range ps {
+			if len(p.Subincludes) > 0 && p.SubrepoName == "" {
+				stat = "yes-host-one-subincludes"
+			}
+		}
+	}
+	return stat
+}
 
 func jsLabels(ls []core.BuildLabel) []string {
 	out := []string{}
@@ -1153,6 +1389,11 @@ func main() {
 			"links that only look like one (hidden sub-target of another rule, same name in another package, no underscore) or still are one (___t#lib); a " +
 			"focused stream builds small graphs around one such test of a library kept by a binary / keep label / gc.keep entry / nothing, and " +
 			"publicDependencies is also observed on the hidden sub-targets themselves. " +
+			"A third stream builds host repositories one or two of whose packages (lib, src, cmd, the root package ...) also exist in a subrepo " +
+			"(name from a pool of 22: the order the graph lists its packages in depends on a hash of it), where the host package alone subincludes a " +
+			"build_defs target (with a dependency, a source, sometimes a test) and/or a direct caller names //pkg/... or //...; controls without the " +
+			"shadowing package or with a second subincluder. The packages sent to the model and used by the oracle are the ones the harness ADDED " +
+			"(its own record), never BuildGraph.PackageMap(); the real PackageMap() is observed separately (key -> package) and compared with the model's copy. " +
 			"distinct = distinct graph+arguments; non-trivial = at least one target kept, one removed and one test in the graph")
 
 		var replay Input
@@ -1216,6 +1457,7 @@ func main() {
 			if len(in.chains) == 0 {
 				c.Hist(stream+"_hidden_chain", "none")
 			}
+			c.Hist(stream+"_same_name_packages", sameNameStat(b))
 			c.HistN(stream+"_targets", len(in.Targets))
 			c.HistN(stream+"_removed", len(out.removed))
 			c.HistN(stream+"_removed_srcs", min(len(out.srcs), 6))
@@ -1239,6 +1481,13 @@ func main() {
 		}
 		for i := 0; i < nChainOracle; i++ {
 			one(generateChain(c.Rng.Fork()), false, "chain")
+		}
+		nShadowModel, nShadowOracle := c.Scale(70, 1500), c.Scale(3000, 50000)
+		for i := 0; i < nShadowModel; i++ {
+			one(generateShadow(c.Rng.Fork()), true, "shadowmodel")
+		}
+		for i := 0; i < nShadowOracle; i++ {
+			one(generateShadow(c.Rng.Fork()), false, "shadow")
 		}
 		for i := 0; i < nOracle; i++ {
 			one(generate(c.Rng.Fork(), i%3 == 2), false, "oracle")
